@@ -113,7 +113,9 @@ Definition handler (op : opk) (src : pipe) (others : list pipe) (st : ostate) (p
   | OScan f =>
       match e with
       | Nx x => let st' := fold_acc (app2 f) st x in
-                (st', match st_acc st' with Some a => [SinkNext a] | None => [] end)
+                (* the accumulator is updated under its write lock; then its read lock is held across the sink
+                   (scan.rs: `if let Some(x) = &*result.read()`) *)
+                (st', match st_acc st' with Some a => [AWith MW []; AWith MR [SinkNext a]] | None => [AWith MW []] end)
       | _ => fwd st ser e
       end
   | OReduce f =>
